@@ -15,7 +15,7 @@ PROPS = {
                           "histories <= 48 operations, search capped at 1e6 nodes (undecided histories are counted, never passed or failed)"]),
     "C08": P(160000, 3000000, expect_reach=["c08.lapping_entries", "c08.xbarrier_rounds_with_external_threads", "c08.waiters_cancelled_in_the_barrier"], assumptions=["ABT_barrier_reinit is called only while nobody waits (API precondition)"]),
     "C09": P(160000, 3000000, expect_reach=["c09.future_reset_rounds", "c09.future_resets_of_partly_filled", "c09.waits_blocked_before_set", "c09.tests_ready", "c09.tasklet_waits_refused", "c09.rearm_sets", "c09.rearm_waits_released_by_a_later_set", "c09.objects_freed_by_their_waiter"], assumptions=["scenario eventual: ABT_eventual_reset is called only at quiescent points (no waiter, no setter in flight); scenario eventual-rearm: the single setter resets right after its own set, while released waiters may still be on their way out"]),
-    "C10": P(160000, 3000000, expect_reach=["c10.reads_sharing_the_lock", "c10.tasklet_calls_refused"], assumptions=["lockers unlock what they locked; finite programs (no reader stream that starves a writer for ever)"]),
+    "C10": P(160000, 3000000, expect_reach=["c10.reads_sharing_the_lock", "c10.tasklet_calls_refused", "c10.lockers_of_a_joined_stream"], assumptions=["lockers unlock what they locked; finite programs (no reader stream that starves a writer for ever)"]),
     "C11": P(160000, 3000000, expect_reach=["c11.resumes", "c11.yield_to", "c11.suspend_to", "c11.resume_yield_to", "c11.resume_suspend_to", "c11.exit_to", "c11.resume_exit_to", "c11.create_to", "c11.revive_to", "c11.thread_yield_to", "c11.thread_yield_to_race_refused", "c11.switches_by_unnamed_proxy"],
              assumptions=["directed-switch targets satisfy the documented preconditions (popped from their pool / observed BLOCKED / TERMINATED); in the chain scenario ABT_thread_yield_to only with a pool served by the calling stream", "scenario yield_to-race goes beyond the documented precondition of ABT_thread_yield_to (target in its pool): other streams may pop the target meanwhile; it relies on the implementation's re-check under the pool lock, which refuses with an error"]),
     "C02": P(160000, 3000000, expect_reach=["c02.resumes", "c02.yield_to", "c02.suspend_to", "c02.resume_yield_to", "c02.exit_to", "c02.create_to", "c02.revive_to"],
